@@ -50,7 +50,7 @@ CHECKS = {
     "C15": dict(engine="SIM-R", category="fault_enumeration", design_ref="DESIGN.md 2.2, 3",
                 technique="deterministic simulation with fault injection: refinement of serde's tuple implementation under faulty readers/writers, stream mutations and failing element codecs",
                 text="For every variant of serde-enabled definitions, JSON and bincode: encode(record) must equal encode(tuple of its fields) byte for byte, and decode::<Record>(s) must agree with decode::<(T0,..)>(s) (both error, or both ok with equal fields; never a panic) for well-formed streams and for streams truncated at any byte, with a flipped bit, with an extra, missing or wrongly typed element, delivered through readers with short reads, EINTR, an error or early EOF at byte k, and with the n-th element codec failing; after every rejected decode nothing decoded so far survives (ledger). Fault positions are drawn by seed (not exhaustively enumerated per stream).",
-                note="Reference model = serde's own tuple implementation; round-trip equality is reported only where the tuple model round-trips too, so format limitations cannot raise an alarm."),
+                note="Reference model = serde's own tuple implementation (the wire shape the fragment documents): a change of wire shape, e.g. to a length-prefixed sequence in bincode, would be reported as a divergence although round trips could still work. Round-trip equality is reported only where the tuple model round-trips too, so format limitations (e.g. u128 in JSON) cannot raise an alarm."),
     "C16": dict(engine="SIM-R", category="fault_enumeration", design_ref="DESIGN.md 2.2, 3",
                 technique="deterministic simulation with fault injection: clone / clone_from with a panic injected at the clone of every field j; equality, independence and ledger oracles",
                 text="For every variant of clone-enabled definitions: clone yields equal fields with fresh live instances, later mutation/drop of either side leaves the other intact (checked by the per-step read-back of all live records); clone_from makes the target equal while its previous instances are destroyed exactly once; a panic is injected at the clone of field j for j drawn over all fields: after unwinding the source is intact, each target field holds its old or new value, nothing leaked or destroyed twice.",
